@@ -28,7 +28,7 @@ RULE = ("random orthogonal cells 3-8 A with 1-12 atoms of mixed Z, positions any
         "distinct case signature")
 CLAUSES = ["shift-infinite", "shift-finite", "tile-array-vs-supercell", "crystal-vs-supercell", "crystal-vs-tile",
            "tile-geometry", "subpixel-mean"]
-QUICK = dict(n=170, time=45)
+QUICK = dict(n=130, time=45)
 THOROUGH = dict(n=6400, time=400, shards=16)
 
 LIGHT = ["C", "O", "N", "Si", "Al", "S"]
@@ -42,9 +42,9 @@ TOL = {
 }
 # finite projection centres its pixel disk on round(x/dx): for an atom exactly half-way between two pixels the rounding
 # direction may differ between the two builds, and the few pixels just inside the cut-off radius that only one of the two
-# index disks reaches hold the tapered tail of the potential (observed <= 7e-7 max|V|, ~1e-4 V*A absolute).  The property
+# index disks reaches hold the tapered tail of the potential (observed <= 3e-6 max|V| on 7x7 grids, ~1e-4 V*A absolute).  The property
 # does not define that float boundary, so such cases are compared with this wider tolerance.
-TOL_HALF_PIXEL = 2e-5
+TOL_HALF_PIXEL = 1e-4
 
 
 def _atoms_case(rng, gpts, cell, n, elements):
@@ -135,6 +135,18 @@ def fixed_cases(tier):
     return out
 
 
+def setup(ctx):
+    # imports and the numba compilation of the finite-projection kernel happen here, outside the per-case watchdog
+    # (an alarm that interrupts a module import leaves half-initialised modules behind)
+    import abtem
+    from ase import Atoms
+    one = Atoms("C", positions=[[1.0, 1.0, 1.0]], cell=[3.0, 3.0, 2.0], pbc=True)
+    for precision in ("float32", "float64"):
+        with G.precision(precision):
+            abtem.Potential(one, gpts=(8, 8), slice_thickness=1.0, projection="finite").build(lazy=False)
+            abtem.Potential(one, gpts=(8, 8), slice_thickness=1.0).build(lazy=True).compute(progress_bar=False)
+
+
 def _st_arg(st):
     return st if isinstance(st, float) else tuple(st)
 
@@ -148,7 +160,7 @@ def _potential(case, atoms, gpts, st):
 def _built(pot, lazy):
     pa = pot.build(lazy=lazy)
     if lazy:
-        pa = pa.compute()
+        pa = pa.compute(progress_bar=False)
     return pa
 
 
